@@ -73,6 +73,9 @@ def jobs(tier, seed):
     js.append(Job("continue", "vlib.stage1:h_stage1",
                   {"shapes": [F([S(3)])], "opts": {"continue_after_failed_step": True, "out_dom": {"*": [0, 3]}},
                    "checks": base}, reach=REACH, min_paths=20, cost=100, validate=150))
+    js.append(Job("continue-set-in-hook", "vlib.stage1:h_stage1",
+                  {"shapes": [F([S(3)], bg=1)], "opts": {"continue_after_failed_step": "in-hook", "hooks": True, "fault": False, "out_dom": {"*": [0, 2]}},
+                   "checks": base}, reach=REACH, min_paths=20, cost=100, validate=150))
     js.append(Job("rerun.reset", "vlib.stage1:h_stage1",
                   {"shapes": [F([S(2)], bg=1)], "opts": {"out_dom": {"*": [0, 5]}, "rerun_reset": True},
                    "checks": ["steps", "rerun"]},
